@@ -482,6 +482,14 @@ def run_model_shard(prop: str, shard: Dict[str, Any], rep: Report) -> None:
         rep.env_count(name, "episodes")
         if info["ended"]:
             rep.env_count(name, "episodes_ended")
+        if len(rep.samples) < 2 and info["steps"] >= 1:
+            tr = info["trace"]
+            rep.sample({
+                "env": name, "cfg": cfg["id"], "policy": info["policy"], "reset_key_int": kint, "steps": info["steps"], "ended": info["ended"],
+                "mask_respecting": info["legal_only"], "actions_head": [np.asarray(e.action).tolist() for e in tr[1:9]],
+                "rewards_head": [np.asarray(e.reward).tolist() for e in tr[1:9]], "last_event": tr[-1].brief(),
+                "monitor": type(mon).__name__,
+            })
         if twin is not None and info["ended"] and info["legal_only"]:
             tr = info["trace"]
             s, t = twin.reset(key)
